@@ -95,9 +95,12 @@ PINS = {
     "C14": _DUMMY + _RECV,
     "C15": _STREAMENC + _STREAMDEC,
     "C16": _DUMMY,
-    "C17": _PAD + _RECV,
+    "C17": _PAD + _RECV + _SERIAL + [(PA, "Parser", f) for f in ("__init__", "_frame_set_data", "_frame_set_single", "_frame_set_bulk",
+                                                                 "_frame_set_all", "frame_start", "frame_cmninfo", "frame_chinfo",
+                                                                 "frame_enable", "frame_div")] +
+           [(DU, "DummyDev", "_write"), (DU, "DummyDev", "_thread_recv")],
     "C18": _SERIALDEV,
-    "C19": _REC,
+    "C19": _REC + [(DEV, "Device", "__init__"), (DEV, "Device", "channel_get"), (DEV, "DeviceChannel", "__init__")],
     "C20": _REASM + _RECV + [(PA, "Parser", "__init__"), (PR, "ParseRecv", "__init__")],
 }
 
